@@ -242,7 +242,15 @@ def check(cls, case, rec):
             rec.close("solver-receives-M11", float(abs(seen["M"] - M11s).max()) / float(abs(M11s).max()), 1e-13)
         rec.require("solver-receives-k-and-shift", seen["kw"].get("k") == k and seen["sigma"] == sigma, [str(seen["kw"])[:80], seen["sigma"]])
     else:
-        job = fem.FreeVibration(items, bounds).evaluate(k=k, **kw, **xkw)
+        if (case["seed"] // 2) % 3 == 1:
+            # the boundary dictionary is handed over empty and filled afterwards (the job keeps the object it was given)
+            later = {}
+            job = fem.FreeVibration(items, later)
+            later.update(bounds)
+            job = job.evaluate(k=k, **kw, **xkw)
+            rec.label("boundaries-added-to-the-dictionary-after-the-job-was-created")
+        else:
+            job = fem.FreeVibration(items, bounds).evaluate(k=k, **kw, **xkw)
     lam = np.asarray(job.eigenvalues)
     V = np.asarray(job.eigenvectors)
     if not rec.require("shapes", lam.shape == (k,) and V.shape == (len(dof1), k), [lam.shape, V.shape]):
@@ -289,7 +297,7 @@ def check(cls, case, rec):
     rec.label("bc=" + case["bc"])
     # the same job object evaluated a second time after its public boundary dictionary was replaced: the free unknowns, the
     # pencil and the pairs are those of the new constraints
-    if case["seed"] % 4 == 2 and xg is None and cls != "mixed-hexahedron" and case["bc"] != "two-faces":
+    if case["seed"] % 2 == 0 and xg is None and cls != "mixed-hexahedron" and case["bc"] != "two-faces":
         case2 = dict(case, bc="two-faces")
         bounds2 = boundaries(fem, fc, Xref, case2, dim)
         dof0b, dof1b = partition_model(fc, bounds2)
